@@ -266,7 +266,7 @@ def run_case(case):
                 if l in reg:
                     return
                 lst = listeners.setdefault(l, ClientRec(sim, log, f"L{l}"))
-                if any(prot.discovery.found_services.store.values()):
+                if model.live:
                     feats["watch_found"] = True
                 if op == "watch":
                     f = s["filter"]
@@ -280,7 +280,7 @@ def run_case(case):
                 if l not in reg:
                     return
                 flt, _ = reg.pop(l)
-                if any(prot.discovery.found_services.store.values()):
+                if model.live:
                     feats["watch_found"] = True
                 if flt == "all":
                     prot.discovery.stop_watch_all_services(listeners[l])
